@@ -221,10 +221,25 @@ def _kw(case, compute):
     return base, kw
 
 
+def _weights(case, X, Y, base):
+    """every third EOF / MCA case carries user weights; they are dask-backed exactly when the data is (weights
+    defined lazily from other lazy fields are ordinary in practice) -- a deferred fit must not evaluate them"""
+    if base not in ("EOF", "MCA") or case["dseed"] % 3 != 1:
+        return None
+
+    def one(D):
+        w = D.isel(time=0, drop=True) * 0.0 + 1.0
+        ramp = 0.5 + 0.25 * (np.arange(w.size).reshape(w.shape) % 4)
+        w = w + (ramp - 1.0)
+        return w.chunk({d: 1 for d in list(w.dims)[:1]}) if xu.is_dask(D) else w
+
+    return [one(X), one(Y)] if base in CROSS else [one(X)]
+
+
 def _fit(case, X, Y, compute):
     base, kw = _kw(case, compute)
     data = [X, Y] if base in CROSS else [X]
-    f = zoo.fit(base, data, "time", kw)
+    f = zoo.fit(base, data, "time", kw, weights=_weights(case, X, Y, base))
     return f
 
 
@@ -334,6 +349,9 @@ def run_case(case, obs):
         obs.cell("cross:use_pca", f"cross:use_pca:{layout}")
         obs.tag(use_pca=True)
     X, Y = _data(case)
+    if _weights(case, X, Y, _kw(case, False)[0]) is not None:
+        obs.cell("user_weights:lazy")
+        obs.tag(user_weights=True)
     is_rot = cls in ROTS
     obs.nontrivial = layout != "single" or sched != "sync"
     # ---- numpy reference (no dask anywhere) ------------------------------------------------
